@@ -1,5 +1,6 @@
 import ShootVerif.Drive.Common
 import ShootVerif.Spec.RestCall
+import ShootVerif.Model.Retry
 namespace ShootVerif.Drive
 open ShootVerif.RestCall
 
@@ -23,6 +24,7 @@ def showKind : Option ErrKind → String
   | some .notSupported => "notsupported"
   | some .decode => "decode"
   | some (.transport f) => "transport:" ++ showFault f
+  | some .redirect => "redirect"
 
 def showCls : ResClass → String
   | .absent => "absent" | .zeroish => "zeroish" | .decoded => "decoded"
@@ -39,17 +41,47 @@ def showAux (r : Ret) : List (String × String) :=
       | some ⟨.notSupported, qs, _⟩ => toString qs
       | _ => "-")]
 
+def regionOf (t : Transport) : String :=
+  if WF t then "WF" else if F_respWithError t then "F_respWithError" else "Out"
+
+/-- one step of a scripted base transport under RetryMiddleware: `(r <status> <body class>)` | `e` -/
+def parseStep : Sexp → Option (ShootVerif.Retry.Outcome × Body)
+  | .atom "e" => some (.err, .empty)
+  | .list [.atom "r", st, .atom b] => do
+    let s ← st.asNat?
+    let b ← parseBody b
+    some (.resp s, b)
+  | _ => none
+
 /-- `(rest-call (shape ptr|slice|map|none) (status n) (body empty|valid|malformed|wrongtype))`
-    `(rest-call (shape …) (fault refused|cancelled|timeout))` -/
+    `(rest-call (shape …) (fault refused|cancelled|timeout))`
+    `(rest-call (shape …) (resperr n))`                       client.Do returned the n response AND an error
+    `(rest-call (shape …) (retry n) (script (r 503 malformed) e (r 200 valid) …))`
+        the client's chain contains RetryMiddleware(n, 0) (model: Retry.retry, C20) in front of a scripted
+        base transport; what `client.Do` sees is the retry loop's result -/
 def restCallCase (id : String) (payload : List Sexp) : List String :=
   let p := Sexp.list (.atom "p" :: payload)
   let shape := match p.field? "shape" with
     | some (.list [_, .atom s]) => parseShape s
     | _ => none
+  match shape, p.field? "retry", p.field? "script" with
+  | some sh, some (.list [_, nS]), some (.list (_ :: steps)) =>
+    match nS.asNat?, steps.mapM parseStep with
+    | some n, some sts =>
+      let script : Nat → ShootVerif.Retry.Outcome := fun i => (sts.map (·.1)).getD i .err
+      let (tr, ret) := ShootVerif.Retry.retry script (n : Int)
+      let t : Transport := effective sts n
+      let r := call sh t
+      let extra := [("calls", toString (ShootVerif.Retry.calls tr)),
+        ("attempt", match ret.err, ret.resp with | none, some i => toString i | _, _ => "-")]
+      both id (showObs (obs r) ++ showAux r ++ extra) (showObs (spec sh t) ++ extra) (regionOf t)
+    | _, _ => err id "bad-retry-script"
+  | _, _, _ =>
   let tr : Option Transport :=
-    match p.field? "fault" with
-    | some (.list [_, .atom f]) => (parseFault f).map .fault
-    | _ =>
+    match p.field? "fault", p.field? "resperr" with
+    | some (.list [_, .atom f]), _ => (parseFault f).map .fault
+    | _, some (.list [_, st]) => st.asInt?.map .respErr
+    | _, _ =>
       match p.field? "status", p.field? "body" with
       | some (.list [_, st]), some (.list [_, .atom b]) =>
         match st.asInt?, parseBody b with
@@ -59,7 +91,7 @@ def restCallCase (id : String) (payload : List Sexp) : List String :=
   match shape, tr with
   | some sh, some t =>
     let r := call sh t
-    both id (showObs (obs r) ++ showAux r) (showObs (spec sh t)) (if WF t then "WF" else "Out")
+    both id (showObs (obs r) ++ showAux r) (showObs (spec sh t)) (regionOf t)
   | _, _ => err id "bad-rest-call-case"
 
 end ShootVerif.Drive
